@@ -78,6 +78,7 @@ class Ctx:
         self.stop_at_label = None
         self.cache = None
         self.max_decisions = None   # unwinding bound: paths deeper than this are cut
+        self.decisions = []         # (condition, chosen side) of every symbolic branch on this path
         self.cached = 0
         self.slow = {}
 
@@ -141,6 +142,7 @@ class Ctx:
                     c = False
                     self.prefix.append(c)
                     self.pos += 1
+                    self.decisions.append((e, c))
                     self.solver.add(z3.Not(e))
                     return c
             other = z3.Not(e) if mv else e
@@ -155,6 +157,7 @@ class Ctx:
             self.model = keep
             self.prefix.append(c)
         self.pos += 1
+        self.decisions.append((e, c))
         self.add(e if c else z3.Not(e))
         return c
 
